@@ -73,6 +73,7 @@ func bindTreeMap(d *drv, m *treemap.Map[int, int]) {
 		return d.derive(func(n *drv) { bindTreeMap(n, r) })
 	}
 	d.left, d.right = m.Min, m.Max
+	d.hasX = true // Machine.v reports the comparator calls of Put / Remove for TreeMap too
 	d.floor, d.ceiling = m.Floor, m.Ceiling
 	d.shape = func() string { return rbTreeShape(m.VerifInner()) }
 	d.links = func() bool { return rbTreeLinks(m.VerifInner()) }
@@ -182,7 +183,7 @@ func bindRBTree(d *drv, t *rbt.Tree[int, int]) {
 	d.floor = func(k int) (int, int, bool) { return node(t.Floor(k)) }
 	d.ceiling = func(k int) (int, int, bool) { return node(t.Ceiling(k)) }
 	d.shape = func() string { return rbTreeShape(t) }
-	d.hasCost = true
+	d.hasCost, d.hasX = true, true
 	d.links = func() bool { return rbTreeLinks(t) }
 	d.fingerprint = func() string { return fmt.Sprintf("RB%s size=%d", rbTreeShape(t), t.Size()) }
 }
@@ -202,7 +203,7 @@ func bindAVLTree(d *drv, t *avltree.Tree[int, int]) {
 	d.floor = func(k int) (int, int, bool) { return node(t.Floor(k)) }
 	d.ceiling = func(k int) (int, int, bool) { return node(t.Ceiling(k)) }
 	d.shape = func() string { return avlShape(t.Root) }
-	d.hasCost = true
+	d.hasCost, d.hasX = true, true
 	d.links = func() bool { return avlLinks(t.Root, t.Size()) }
 	d.fingerprint = func() string { return fmt.Sprintf("AVL%s size=%d", avlShape(t.Root), t.Size()) }
 }
@@ -222,7 +223,7 @@ func bindBTree(d *drv, t *btree.Tree[int, int]) {
 	d.right = func() (int, int, bool) { return kv(t.RightKey(), t.RightValue()) }
 	d.shape = func() string { return btShape(t.Root) }
 	d.height = t.Height
-	d.hasCost = true
+	d.hasCost, d.hasX = true, true
 	d.links = func() bool { return btLinks(t.Root, t.Size()) && t.VerifOrder() == d.cfg.Order }
 	d.fingerprint = func() string { return fmt.Sprintf("BT%s size=%d m=%d", btShape(t.Root), t.Size(), t.VerifOrder()) }
 }
